@@ -1,4 +1,4 @@
-import CasbinVerif.Proofs.Store
+import CasbinVerif.Proofs.StoreOps
 /-
   C06 — The policy store is an ordered set with a coherent index.
 
@@ -12,15 +12,19 @@ namespace Casbin.C06
 theorem key_injective {r₁ r₂ : Rule}
     (h₁ : ∀ f ∈ r₁, commaFree f = true) (h₂ : ∀ f ∈ r₂, commaFree f = true)
     (n₁ : r₁ ≠ []) (n₂ : r₂ ≠ []) (h : ruleKey r₁ = ruleKey r₂) : r₁ = r₂ := by
-  sorry
+  exact ruleKey_injective h₁ h₂ n₁ n₂ h
 
 theorem coh_empty : Coh Store.empty := by
-  sorry
+  exact coh_empty'
 
 /-- one management call refines the specification and keeps list and index coherent -/
 theorem refine_step (n : Nat) (s : Store) (op : StoreOp) (h : Coh s) (hwf : WF06 n s.policy op = true) :
     ∃ s' b, Mgmt.apply s op = some (s', b) ∧ Coh s' ∧ (s'.policy, b) = SpecStore.apply s.policy op := by
-  sorry
+  have hpl : ∀ q ∈ s.policy, plainRule n q = true := by
+    simp only [WF06, Bool.and_eq_true, List.all_eq_true] at hwf
+    exact hwf.1.1.2
+  obtain ⟨s', b, h1, g', h2⟩ := mgmt_apply_spec ⟨h, hpl⟩ hwf
+  exact ⟨s', b, h1, g'.coh, h2⟩
 
 /-- run a history on the model / on the specification -/
 def runModel (s : Store) : List StoreOp → Option (Store × List Bool)
@@ -46,49 +50,75 @@ def WFHist (n : Nat) (l : List Rule) : List StoreOp → Bool
     and the index stays coherent -/
 theorem refine_hist (n : Nat) (s : Store) (ops : List StoreOp) (h : Coh s) (hwf : WFHist n s.policy ops = true) :
     ∃ s' bs, runModel s ops = some (s', bs) ∧ Coh s' ∧ (s'.policy, bs) = runSpec s.policy ops := by
-  sorry
+  induction ops generalizing s with
+  | nil => exact ⟨s, [], rfl, h, rfl⟩
+  | cons op ops ih =>
+    simp only [WFHist, Bool.and_eq_true] at hwf
+    obtain ⟨s', b, h1, hc, h2⟩ := refine_step n s op h hwf.1
+    have e1 : (SpecStore.apply s.policy op).1 = s'.policy := by rw [← h2]
+    obtain ⟨s'', bs, h3, hc', h4⟩ := ih s' hc (e1 ▸ hwf.2)
+    refine ⟨s'', b :: bs, ?_, hc', ?_⟩
+    · simp [runModel, h1, h3]
+    · simp only [runSpec]
+      rw [← h2, ← h4]
 
 /-- a rule is reported present exactly when it is listed -/
 theorem has_iff_listed (n : Nat) (s : Store) (h : Coh s) (r : Rule)
     (hl : ∀ q ∈ s.policy, plainRule n q = true)
     (hr : plainRule n r = true) (hn : n ≠ 0) :
     s.has r = true ↔ r ∈ s.policy := by
-  sorry
+  exact Coh.has_iff hn h hl hr
 
 /-- no rule is listed twice, after any history -/
 theorem never_listed_twice (n : Nat) (ops : List StoreOp) (hwf : WFHist n [] ops = true) :
     ∃ s' bs, runModel Store.empty ops = some (s', bs) ∧ s'.policy.Nodup := by
-  sorry
+  obtain ⟨s', bs, h1, hc, _⟩ := refine_hist n Store.empty ops coh_empty hwf
+  exact ⟨s', bs, h1, hc.1⟩
 
 /-- removal keeps the relative order of the remaining rules -/
 theorem remove_keeps_order (l : List Rule) (r : Rule) :
     (SpecStore.apply l (.remove r)).1.Sublist l ∧ ∀ q, q ∈ (SpecStore.apply l (.remove r)).1 → q ∈ l := by
-  sorry
+  simp only [SpecStore.apply]
+  split
+  · exact ⟨List.erase_sublist, fun q hq => List.mem_of_mem_erase hq⟩
+  · exact ⟨List.Sublist.refl _, fun q hq => hq⟩
 
 /-- update replaces in place: every other slot is untouched -/
 theorem update_keeps_order (l : List Rule) (old new : Rule) :
     (SpecStore.apply l (.update old new)).1.length = l.length ∧
     ∀ i : Nat, l[i]? ≠ some old → (SpecStore.apply l (.update old new)).1[i]? = l[i]? := by
-  sorry
+  simp only [SpecStore.apply]
+  split
+  · refine ⟨by simp [SpecStore.replace], ?_⟩
+    intro i hi
+    simp only [SpecStore.replace, List.getElem?_map]
+    cases hx : l[i]? with
+    | none => rfl
+    | some x =>
+      have : x ≠ old := fun e => hi (by rw [hx, e])
+      simp [this]
+  · exact ⟨rfl, fun _ _ => rfl⟩
 
 /-- filtered queries select exactly the listed rules whose fields equal the non-empty values -/
 theorem filtered_query_exact (n : Nat) (s : Store) (fi : Nat) (vals : List String)
     (hl : ∀ q ∈ s.policy, q.length = n) (hr : fi + vals.length ≤ n) :
     s.getFiltered fi vals = some (s.policy.filter (filterMatches fi vals)) := by
-  sorry
+  exact getFiltered_eq s fi vals (fun q hq => matchFilter_eq q vals fi (by rw [hl q hq]; exact hr))
 
 /-- a non-Ex call reports false exactly when it left the listed rules unchanged -/
 theorem false_iff_unchanged (n : Nat) (l : List Rule) (op : StoreOp) (hnd : l.Nodup)
     (hwf : WF06 n l op = true) (hex : ∀ rs, op ≠ .addMany true rs) :
     (SpecStore.apply l op).2 = false ↔ (SpecStore.apply l op).1 = l := by
-  sorry
+  have _ := hnd
+  exact spec_false_iff_unchanged n l op hwf hex
 
 /-- coherence also survives the priority insertion of `AddPolicy` (used by C07) -/
 theorem coh_add_prio (n : Nat) (pi : Nat) (s : Store) (r : Rule) (h : Coh s)
     (hl : ∀ q ∈ s.policy, plainRule n q = true)
     (hr : plainRule n r = true) (hn : n ≠ 0) (hnew : r ∉ s.policy) :
     Coh (s.add (some pi) r) ∧ (s.add (some pi) r).policy.Perm (r :: s.policy) := by
-  sorry
+  obtain ⟨g', hp⟩ := good_add_prio hn pi ⟨h, hl⟩ hr hnew
+  exact ⟨g'.coh, hp⟩
 
 /-! ### non-vacuity -/
 def exOps : List StoreOp :=
